@@ -318,9 +318,8 @@ Fixpoint remove_inner (k : kind) (p : path) (cpt : bool) {struct p} : kind * com
               match largest_known_index c with
               | None => (k, if Nat.leb (min_length c) 1 then CMaybe else CNever)
               | Some l =>
-                  if Nat.ltb (S l) negative_index then
-                    (k, CPanic)            (* `x + 1 - negative_index` underflows usize *)
-                  else
+                    (* `(x + 1).saturating_sub(negative_index)` (since 3fccdc6; it used to underflow usize);
+                       subtraction on nat saturates *)
                     let min_index := S l - negative_index in
                     let one (j : nat) : acoll * bool :=
                       match aget Nat.eqb (known c) j with
